@@ -12,11 +12,17 @@ chain (the GEN of its slot).  Byte equality of outcomes.
 import copy
 
 from .. import seeds, shrink
-from ..pool import Pool, unwrap
+from ..pool import Pool, Skips, unwrap
 from ..workload import ALL_FRAMEWORKS, gen_workload
 
 PROP = "C14"
 LEVEL = "exploration"
+# EXTEND = processing more samples into a registry that has already been rendered.  Tried and switched off: on the
+# unchanged tree an intermediate render rewrites class names in the registry (by design, the property only asks that this
+# conversion be idempotent), so a later merge sees other names ('Таблица' -> 'Tablitsa').  That is a dependence on the
+# explicitly passed registry's state, not on process history; the property's quantifier speaks of generation and render
+# calls only.  Judging EXTEND would demand more than the property states (DESIGN.md 12.6).
+ENABLE_EXTEND = False
 
 
 # ---- worker side ------------------------------------------------------------------------------------------------------
@@ -70,7 +76,23 @@ def job_history(args):
         if kind == "GEN":
             def go(op=op):
                 gen, reg = infer(op["models"], op["options"])
-                slots[op["slot"]] = {"reg": reg, "tree": _is_tree(reg)}
+                slots[op["slot"]] = {"reg": reg, "gen": gen, "tree": _is_tree(reg)}
+                return _dump_registry(reg)
+        elif kind == "EXTEND":
+            slot = slots.get(op["slot"])
+            if slot is None:
+                outs.append({"skipped": "slot holds no registry"})
+                continue
+
+            def go(op=op, slot=slot):
+                # more samples processed into the SAME registry with the same generator (what the CLI does for every
+                # further model name), then merged and named again
+                gen, reg = slot["gen"], slot["reg"]
+                for name, samples in op["models"]:
+                    reg.process_meta_data(gen.generate(*samples), name)
+                reg.merge_models(gen)
+                reg.generate_names()
+                slot["tree"] = _is_tree(reg)
                 return _dump_registry(reg)
         else:
             slot = slots.get(op["slot"])
@@ -123,6 +145,7 @@ def make_history(seed, i, max_ops=4):
     n_ops = rng.randint(2, max_ops)
     n_slots = rng.choice([1, 1, 2, 2, 3])
     slot_w = {}
+    slot_fixed = {}
     # a second slot sometimes shares (non-ASCII) field names with the first but differs in the unicode option
     # (stale label caches); such histories render both slots
     twin = n_slots >= 2 and rng.random() < 0.4
@@ -136,6 +159,7 @@ def make_history(seed, i, max_ops=4):
                          p_variant=0.0, n_models=1, p_missing=0.0, width=rng.randint(2, 4))
         w = gen_workload(seeds.derive(seed, PROP, i, "slot", s), **fixed)
         slot_w[s] = w
+        slot_fixed[s] = fixed
     if twin:
         slot_w[1] = copy.deepcopy(slot_w[0])
         slot_w[1]["options"]["convert_unicode"] = not slot_w[0]["options"]["convert_unicode"]
@@ -151,6 +175,12 @@ def make_history(seed, i, max_ops=4):
         if crash:
             op["crash_at"] = rng.choice([1, 5, 30, 100, 300, 1000, 3000])
         return op
+
+    def extend_op(s):
+        # more samples of the same shapes under other model names: they merge with what the registry already holds
+        w2 = gen_workload(seeds.derive(seed, PROP, i, "slot", s), **(slot_fixed.get(s) or {}))
+        models = [[name + "2", samples] for name, samples in w2["models"]]
+        return {"op": "EXTEND", "slot": s, "models": models}
 
     def render_op(s, crash=False):
         w = slot_w[s]
@@ -178,10 +208,19 @@ def make_history(seed, i, max_ops=4):
         return op
 
     def cli_op():
+        # an in-process CLI command as a perturbation: any option that might leave something behind in the process
         argv = ["-m", "P", "{DIR}/p.json"] + rng.choice([["--datetime"], ["--disable-str-serializable-types", "float"],
                                                         ["--datetime", "--disable-str-serializable-types", "int", "bool"],
-                                                        ["--disable-str-serializable-types", "int", "float", "bool"]])
-        return {"op": "CLI", "spec": {"files": {"p.json": {"text": '[{"a": "1", "b": "2020-01-02", "c": "true"}]'}}, "argv": argv}}
+                                                        ["--disable-str-serializable-types", "int", "float", "bool"],
+                                                        ["--max-strings-literals", "50"], ["--max-strings-literals", "0"],
+                                                        ["--max-strings-literals", "30", "-f", "pydantic", "-s", "nested"],
+                                                        ["--merge", "exact", "--dkr", "\\d+", "--dkf", "a"],
+                                                        ["-f", "attrs", "--strings-converters", "--no-unidecode"],
+                                                        ["-f", "dataclasses", "--code-generator-kwargs", "meta=true",
+                                                         "--preamble", "# cli preamble"]])
+        doc = [{"a": "1", "b": "2020-01-02", "c": "true", "tag": "v%02d" % k, "größe": {"1": k}} for k in range(rng.choice([1, 3, 20]))]
+        import json as _json
+        return {"op": "CLI", "spec": {"files": {"p.json": {"text": _json.dumps(doc)}}, "argv": argv}}
 
     # first op is a GEN so that there is something to work on
     ops.append(gen_op(0))
@@ -191,6 +230,24 @@ def make_history(seed, i, max_ops=4):
         bad.update(structure="nested", force_nested=True, crash_in="generate_code",
                    crash_at=rng.choice([1, 2, 5, 10, 20, 40, 80, 150, 300, 600]))
         ops += [bad, dict(render_op(0), structure="flat")]
+    if not twin and not crash_then_render and rng.random() < 0.12:
+        # targeted order: a CLI command with an option that touches process-global settings, then a generation whose
+        # samples are sensitive to exactly that kind of setting (explicit registries and options as always)
+        kind = rng.choice(["literals", "datetime", "disable"])
+        sens = {"literals": dict(scalar_kinds=["str_enum", "str_enum", "int"], samples=rng.randint(20, 40), p_hetero=0.5, width=3),
+                "datetime": dict(scalar_kinds=["str_date", "str_datetime", "str_time", "str_plain"], p_hetero=0.5, width=4),
+                "disable": dict(scalar_kinds=["str_int", "str_float", "str_bool", "int"], p_hetero=0.5, width=4)}[kind]
+        cli_argv = {"literals": ["--max-strings-literals", rng.choice(["20", "50", "100"])], "datetime": ["--datetime"],
+                    "disable": ["--disable-str-serializable-types", rng.choice(["int", "float", "bool"])]}[kind]
+        s_new = n_slots
+        slot_w[s_new] = gen_workload(seeds.derive(seed, PROP, i, "sensitive"), **dict(sens, p_null=0.0, p_missing=0.0, n_models=1,
+                                                                                 depth=1, bulk=0, chain=False))
+        c = cli_op()
+        c["spec"]["argv"] = ["-m", "P", "{DIR}/p.json"] + cli_argv
+        r = render_op(s_new)
+        r["options"]["max_literals"] = rng.choice([10, 20, 50])
+        ops += [c, gen_op(s_new), r]
+        generated.append(s_new)
     if twin and n_ops >= 4:
         ops += [render_op(0), gen_op(1), render_op(1)]
         generated.append(1)
@@ -203,6 +260,12 @@ def make_history(seed, i, max_ops=4):
             ops.append(gen_op(s, crash=rng.random() < 0.3))
             if s not in generated:
                 generated.append(s)
+        elif ENABLE_EXTEND and r < 0.42 and any(o["op"] == "RENDER" for o in ops):
+            # extend a registry that has already been rendered (disabled, see ENABLE_EXTEND)
+            s = rng.choice([o["slot"] for o in ops if o["op"] == "RENDER"])
+            ops.append(extend_op(s))
+            if len(ops) < n_ops:
+                ops.append(render_op(s))
         else:
             s = rng.choice(generated)
             ops.append(render_op(s, crash=rng.random() < 0.2))
@@ -210,22 +273,31 @@ def make_history(seed, i, max_ops=4):
 
 
 def judged_indices(ops, outcomes):
-    """Ops whose outcome is compared with a pristine run: non-crashing GEN/RENDER whose slot GEN succeeded."""
+    """Ops whose outcome is compared with a pristine run: non-crashing GEN / EXTEND / RENDER.  The dependency chain of
+    an op is the successful GEN of its slot plus the successful EXTENDs of that slot before it (no renders)."""
     out = []
-    last_gen = {}
+    chain = {}
+    poisoned = set()  # slots whose registry was left half-extended by a failing / crashing EXTEND
     for i, (op, o) in enumerate(zip(ops, outcomes)):
         if op["op"] == "GEN":
             if "crash" not in o:
-                out.append((i, None))
+                out.append((i, []))
             if "text" in o:
-                last_gen[op["slot"]] = i
-            elif "crash" in o or "exc" in o:
-                pass  # slot keeps its previous registry (infer assigns the slot only on success)
-        elif op["op"] == "RENDER":
-            if "skipped" in o or "perturbation" in o:
+                chain[op["slot"]] = [i]
+                poisoned.discard(op["slot"])
+        elif op["op"] == "EXTEND":
+            if "skipped" in o or op["slot"] not in chain or op["slot"] in poisoned:
                 continue
-            if "crash" not in o and op["slot"] in last_gen:
-                out.append((i, last_gen[op["slot"]]))
+            if "text" in o:
+                out.append((i, list(chain[op["slot"]])))
+                chain[op["slot"]].append(i)
+            else:
+                poisoned.add(op["slot"])  # a failed extension leaves the registry in an undefined state: stop judging it
+        elif op["op"] == "RENDER":
+            if "skipped" in o or "perturbation" in o or op["slot"] in poisoned:
+                continue
+            if "crash" not in o and op["slot"] in chain:
+                out.append((i, list(chain[op["slot"]])))
     return out
 
 
@@ -236,17 +308,13 @@ def strip_crash(op):
 
 
 def oracle_ops(ops, i, dep):
-    chain = []
-    if dep is not None:
-        chain.append(strip_crash(ops[dep]))
-    chain.append(strip_crash(ops[i]))
-    return chain
+    return [strip_crash(ops[j]) for j in (dep or [])] + [strip_crash(ops[i])]
 
 
 def nontrivial(ops, i, dep, outcomes):
     """Judged op i is preceded by another op on the same slot, by a crash, or by a CLI perturbation."""
     for j in range(i):
-        if j == dep:
+        if j in (dep or []):
             continue
         if ops[j]["op"] == "CLI" or "crash" in outcomes[j]:
             return True
@@ -262,15 +330,22 @@ def clean(o):
 
 
 def evaluate(pool, histories):
-    res = [unwrap(r) for r in pool.map("checks.c14:job_history", [{"ops": h} for h in histories], timeout=120)]
+    skips = Skips(limit=max(5, len(histories) // 100))
+    res = [skips.take(r) for r in pool.map("checks.c14:job_history", [{"ops": h} for h in histories], timeout=90)]
     jobs, idx = [], []
     for hi, (h, r) in enumerate(zip(histories, res)):
+        if r is None:
+            res[hi] = {"outcomes": [{"skipped": "time limit"} for _ in h],
+                       "probes": {"crash_fired": 0, "crash_in_generate_code": 0}}
+            continue  # the history ran into the job time limit: not judged
         for i, dep in judged_indices(h, r["outcomes"]):
             jobs.append({"ops": oracle_ops(h, i, dep)})
             idx.append((hi, i, dep))
-    ores = [unwrap(r) for r in pool.map("checks.c14:job_history", jobs, timeout=120)]
+    ores = [skips.take(r) for r in pool.map("checks.c14:job_history", jobs, timeout=90)]
     verdicts = []
     for (hi, i, dep), o in zip(idx, ores):
+        if o is None:
+            continue
         got = clean(res[hi]["outcomes"][i])
         want = clean(o["outcomes"][-1])
         verdicts.append((hi, i, dep, got, want))
@@ -315,7 +390,8 @@ def minimise(pool, ops, i):
             return False
         return any(ix == len(hist) - 1 and got != want for _, ix, _, got, want in verdicts)
 
-    keep = shrink.ddmin(before, lambda sub: fails(build(sorted(sub))), budget)
+    keep = shrink.ddmin(before, lambda sub: fails(build(sorted(sub))), budget)  # (a history without the slot's GEN simply
+    #                                                                             has nothing to judge -> "does not fail")
     hist = build(sorted(keep))
     # shrink the samples of the failing op's slot
     slot = target.get("slot")
@@ -392,7 +468,7 @@ def run(ctx):
                     hist, text, ix, got2, want2 = h, describe(h[i], got, want), i, got, want
                 rep.violation(key_of(hist, ix, got2, want2), {
                     "ops": hist, "judged_op": ix, "in_history": got2, "pristine": want2,
-                    "clause": "outcome of the call inside the history == outcome in a pristine process",
+                    "clause": "outcome of the call inside the history == outcome in a pristine process after only its dependency chain",
                 }, f"history of {len(hist)} op(s) [{', '.join(('crash ' if 'crash_at' in o else '') + o['op'] for o in hist)}]: " + text)
     warn = [k for k in ("histories_with_crash", "histories_with_cli", "render_twice_same_slot", "crash_in_generate_code",
                         "two_frameworks_same_slot") if not stats[k]]
